@@ -1,5 +1,263 @@
-import BroodModel.Inv
+/-
+  C02 — Identifiers are never confused: unique, stable while live, dead once removed.
+
+  Stated over *every* history of allocator operations (the only code that creates, resolves and
+  retires identifiers: `entity::Allocator`).  A history is a list of `AOp`s; `release`/`move` of an
+  identifier that is not live is a no-op, exactly as `World::remove` / `World::entry` behave.
+  The correspondence check ties `Alloc` to src/entity/allocator/mod.rs through the slot/free-list
+  dump after every operation and through `probe` ops on every identifier ever issued.
+
+  Overflow: generations are `Nat`; the code's `wrapping_add(1)` equals `+ 1` while a slot has been
+  reused fewer than 2^64 times (trusted-base note in DESIGN §9, not an axiom).
+-/
+import BroodModel.Lemmas.Alloc
+
 namespace Brood
-theorem C02_placeholder_init (n : Nat) (res : List Val) : (World.init n res).len = 0 := rfl
+open Alloc
+
+/-- Allocator-level operations of a history. -/
+inductive AOp
+  | alloc (loc : Loc)                    -- insert
+  | batch (h start n : Nat)              -- extend with n rows
+  | release (id : Ident)                 -- remove / clear (per identifier)
+  | move (id : Ident) (loc : Loc)        -- row moved: swap-remove fix-up, Entry::add/remove
+
+structure AState where
+  a : Alloc
+  /-- ghost: every identifier returned so far, newest first -/
+  issued : List Ident
+  /-- ghost: identifiers that were live when released -/
+  retired : List Ident
+
+def AState.init : AState := ⟨Alloc.empty, [], []⟩
+
+/-- One step; returns the identifiers handed to the caller by this step. -/
+def astep (s : AState) : AOp → Out (AState × List Ident)
+  | .alloc loc =>
+    match s.a.allocate loc with
+    | .ok (a', id) => .ok (⟨a', id :: s.issued, s.retired⟩, [id])
+    | .ub w => .ub w
+  | .batch h start n =>
+    match s.a.allocateBatch h start n with
+    | .ok (a', ids) => .ok (⟨a', ids.reverse ++ s.issued, s.retired⟩, ids)
+    | .ub w => .ub w
+  | .release id =>
+    match s.a.get id with
+    | none => .ok (s, [])
+    | some _ =>
+      match s.a.release id with
+      | .ok a' => .ok (⟨a', s.issued, id :: s.retired⟩, [])
+      | .ub w => .ub w
+  | .move id loc =>
+    match s.a.get id with
+    | none => .ok (s, [])
+    | some _ =>
+      match s.a.setLoc id loc with
+      | .ok a' => .ok (⟨a', s.issued, s.retired⟩, [])
+      | .ub w => .ub w
+
+def arun (s : AState) : List AOp → Out AState
+  | [] => .ok s
+  | op :: ops =>
+    match astep s op with
+    | .ok (s', _) => arun s' ops
+    | .ub w => .ub w
+
+/-- What is maintained along every history. -/
+structure AGood (s : AState) : Prop where
+  inv : AInv s.a
+  ghost : Ghost s.a s.issued
+  nodup : s.issued.Nodup
+  dead : ∀ id ∈ s.retired, Dead s.a id
+
+theorem AGood.init : AGood AState.init :=
+  ⟨AInv.empty, Ghost.nil _, List.nodup_nil, by simp [AState.init]⟩
+
+/-- One step preserves `AGood`, never reaches an unchecked access, and returns only fresh,
+pairwise distinct identifiers. -/
+theorem astep_good {s : AState} (g : AGood s) (op : AOp) :
+    ∃ s' out, astep s op = .ok (s', out) ∧ AGood s' ∧ (∀ id ∈ out, id ∉ s.issued) ∧ out.Nodup := by
+  cases op with
+  | alloc loc =>
+    obtain ⟨a', id, e⟩ := allocate_ok g.inv loc
+    refine ⟨⟨a', id :: s.issued, s.retired⟩, [id], by simp [astep, e], ?_, ?_, by simp⟩
+    · exact ⟨allocate_inv g.inv e, allocate_ghost g.ghost e,
+        List.nodup_cons.mpr ⟨allocate_fresh g.ghost e, g.nodup⟩,
+        fun x hx => allocate_dead (g.dead x hx) e⟩
+    · intro x hx; simp at hx; subst hx; exact allocate_fresh g.ghost e
+  | batch h start n =>
+    obtain ⟨a', ids, e⟩ := allocateBatch_ok g.inv h start n
+    obtain ⟨fr, nd, gh⟩ := allocateBatch_fresh g.ghost e
+    refine ⟨⟨a', ids.reverse ++ s.issued, s.retired⟩, ids, by simp [astep, e], ?_, fr, nd⟩
+    refine ⟨(allocateBatch_inv g.inv e).1, gh, ?_, ?_⟩
+    · rw [List.nodup_append]
+      refine ⟨nodup_reverse'.mpr nd, g.nodup, ?_⟩
+      intro x hx y hy hxy
+      subst hxy
+      exact fr x (List.mem_reverse.mp hx) hy
+    · intro x hx
+      exact allocateBatch_dead (g.dead x hx) e
+  | release id =>
+    cases hg : s.a.get id with
+    | none => exact ⟨s, [], by simp [astep, hg], g, by simp, by simp⟩
+    | some l =>
+      have hl : Live s.a id := ⟨l, hg⟩
+      obtain ⟨a', e⟩ := release_ok hl
+      refine ⟨⟨a', s.issued, id :: s.retired⟩, [], by simp [astep, hg, e], ?_, by simp, by simp⟩
+      refine ⟨release_inv g.inv hl e, release_ghost g.ghost e, g.nodup, ?_⟩
+      intro x hx
+      simp at hx
+      rcases hx with rfl | hx
+      · exact release_makes_dead hl e
+      · exact release_dead_other (g.dead x hx) e
+  | move id loc =>
+    cases hg : s.a.get id with
+    | none => exact ⟨s, [], by simp [astep, hg], g, by simp, by simp⟩
+    | some l =>
+      have hl : Live s.a id := ⟨l, hg⟩
+      obtain ⟨t, ht, _, _⟩ := get_eq_some.mp hg
+      have e : s.a.setLoc id loc = .ok ⟨s.a.slots.set id.index ⟨t.gen, some loc⟩, s.a.free⟩ := by
+        simp [setLoc, ht]
+      refine ⟨⟨⟨s.a.slots.set id.index ⟨t.gen, some loc⟩, s.a.free⟩, s.issued, s.retired⟩, [],
+        by simp [astep, hg, e], ?_, by simp, by simp⟩
+      exact ⟨setLoc_inv g.inv hl e, setLoc_ghost g.ghost e, g.nodup,
+        fun x hx => setLoc_dead_other (g.dead x hx) hl e⟩
+
+/-- Every history from the empty allocator runs without undefined behaviour and ends `AGood`. -/
+theorem arun_good {s : AState} (g : AGood s) (ops : List AOp) :
+    ∃ s', arun s ops = .ok s' ∧ AGood s' := by
+  induction ops generalizing s with
+  | nil => exact ⟨s, rfl, g⟩
+  | cons op ops ih =>
+    obtain ⟨s1, out, e, g1, _, _⟩ := astep_good g op
+    obtain ⟨s2, e2, g2⟩ := ih g1
+    exact ⟨s2, by simp [arun, e, e2], g2⟩
+
+/-- **C02 (uniqueness).** After any history, the identifiers issued over the allocator's whole
+lifetime are pairwise distinct — each identifier returned by insert/extend differs from every
+identifier returned before it. -/
+theorem C02_unique (ops : List AOp) :
+    ∃ s, arun AState.init ops = .ok s ∧ s.issued.Nodup := by
+  obtain ⟨s, e, g⟩ := arun_good AGood.init ops
+  exact ⟨s, e, g.nodup⟩
+
+/-- **C02 (freshness, step form).** In any reachable state, the identifiers a step returns were
+never issued before and are pairwise distinct (batches larger, equal and smaller than the free
+list included: `n` is arbitrary). -/
+theorem C02_fresh (ops : List AOp) (op : AOp) :
+    ∃ s s' out, arun AState.init ops = .ok s ∧ astep s op = .ok (s', out) ∧
+      (∀ id ∈ out, id ∉ s.issued) ∧ out.Nodup := by
+  obtain ⟨s, e, g⟩ := arun_good AGood.init ops
+  obtain ⟨s', out, e', _, fr, nd⟩ := astep_good g op
+  exact ⟨s, s', out, e, e', fr, nd⟩
+
+/-- **C02 (dead once removed).** An identifier that was live when it was released never resolves
+again, whatever happens afterwards — including reuse of its slot: for *every* retired identifier,
+not only the most recent one. -/
+theorem C02_dead_forever (ops : List AOp) :
+    ∃ s, arun AState.init ops = .ok s ∧
+      ∀ id ∈ s.retired, s.a.get id = none ∧ s.a.isActive id = false := by
+  obtain ⟨s, e, g⟩ := arun_good AGood.init ops
+  refine ⟨s, e, fun id hid => ?_⟩
+  have hn := (g.dead id hid).not_live
+  refine ⟨hn, ?_⟩
+  cases h : s.a.isActive id with
+  | false => rfl
+  | true => have := isActive_iff_get.mp h; simp [hn] at this
+
+/-- An operation *targets* an identifier if it releases it. -/
+def AOp.releases (id : Ident) : AOp → Bool
+  | .release id' => id' == id
+  | _ => false
+
+/-- **C02 (stable while live).** A live identifier keeps resolving through any continuation that
+does not release it — allocations reusing other slots, releases and moves of other entities, and
+moves of the entity itself (it then resolves to the new location). -/
+theorem C02_stable {s : AState} (g : AGood s) {id : Ident} (hl : Live s.a id) (ops : List AOp)
+    (hno : ∀ op ∈ ops, op.releases id = false) :
+    ∃ s', arun s ops = .ok s' ∧ Live s'.a id := by
+  induction ops generalizing s with
+  | nil => exact ⟨s, rfl, hl⟩
+  | cons op ops ih =>
+    obtain ⟨s1, out, e, g1, _, _⟩ := astep_good g op
+    have hl1 : Live s1.a id := by
+      obtain ⟨l, hl⟩ := hl
+      cases op with
+      | alloc loc =>
+        simp only [astep] at e
+        cases h1 : s.a.allocate loc with
+        | ub w => simp [h1] at e
+        | ok p =>
+          obtain ⟨a', nid⟩ := p
+          simp [h1] at e
+          obtain ⟨rfl, _⟩ := e
+          exact ⟨l, allocate_frame g.inv h1 hl⟩
+      | batch h start n =>
+        simp only [astep] at e
+        cases h1 : s.a.allocateBatch h start n with
+        | ub w => simp [h1] at e
+        | ok p =>
+          obtain ⟨a', ids⟩ := p
+          simp [h1] at e
+          obtain ⟨rfl, _⟩ := e
+          exact ⟨l, allocateBatch_frame g.inv h1 hl⟩
+      | release id' =>
+        have hne : id ≠ id' := by
+          have := hno (.release id') (by simp)
+          simp [AOp.releases] at this
+          exact fun e => this e.symm
+        simp only [astep] at e
+        cases hg : s.a.get id' with
+        | none => simp [hg] at e; obtain ⟨rfl, _⟩ := e; exact ⟨l, hl⟩
+        | some l' =>
+          simp [hg] at e
+          cases h1 : s.a.release id' with
+          | ub w => simp [h1] at e
+          | ok a' =>
+            simp [h1] at e
+            obtain ⟨rfl, _⟩ := e
+            exact ⟨l, release_frame ⟨l', hg⟩ h1 hne hl⟩
+      | move id' loc =>
+        simp only [astep] at e
+        cases hg : s.a.get id' with
+        | none => simp [hg] at e; obtain ⟨rfl, _⟩ := e; exact ⟨l, hl⟩
+        | some l' =>
+          simp [hg] at e
+          cases h1 : s.a.setLoc id' loc with
+          | ub w => simp [h1] at e
+          | ok a' =>
+            simp [h1] at e
+            obtain ⟨rfl, _⟩ := e
+            by_cases hne : id = id'
+            · subst hne; exact ⟨loc, setLoc_get ⟨l', hg⟩ h1⟩
+            · exact ⟨l, setLoc_frame ⟨l', hg⟩ h1 hne hl⟩
+    obtain ⟨s2, e2, hl2⟩ := ih g1 hl1 (fun op hop => hno op (by simp [hop]))
+    exact ⟨s2, by simp [arun, e, e2], hl2⟩
+
+/-- No history reaches an unchecked slot access (`get_unchecked_mut`, `unwrap_unchecked`). -/
+theorem C02_no_ub (ops : List AOp) : ∀ w, arun AState.init ops ≠ .ub w := by
+  obtain ⟨s, e, _⟩ := arun_good AGood.init ops
+  intro w h; rw [e] at h; cases h
+
+/-! Non-vacuity: a concrete history with reuse through a batch smaller than the free list. -/
+example :
+    (arun AState.init
+      [.batch 0 0 3, .release ⟨0, 0⟩, .release ⟨1, 0⟩, .release ⟨2, 0⟩, .batch 0 0 1,
+       .alloc ⟨0, 1⟩, .release ⟨0, 0⟩]).isOk = true := by decide
+
+def exampleState : Option AState :=
+  match arun AState.init
+    [.batch 0 0 3, .release ⟨0, 0⟩, .release ⟨1, 0⟩, .release ⟨2, 0⟩, .batch 0 0 1, .alloc ⟨0, 1⟩] with
+  | .ok s => some s
+  | .ub _ => none
+
+example : exampleState.map (fun s => (s.issued, s.retired.length, s.a.free)) =
+    some ([⟨1, 1⟩, ⟨0, 1⟩, ⟨2, 0⟩, ⟨1, 0⟩, ⟨0, 0⟩], 3, [2]) := by decide
+
 end Brood
-#print axioms Brood.C02_placeholder_init
+
+#print axioms Brood.C02_unique
+#print axioms Brood.C02_fresh
+#print axioms Brood.C02_dead_forever
+#print axioms Brood.C02_stable
+#print axioms Brood.C02_no_ub
